@@ -162,6 +162,9 @@ def main(tier, seed):
     hs = R.histories(depth)
     # plus the disabled words that keep the autonomous / test selection bit set, one level shallower
     hs = hs + [h for h in R.histories(depth - 1, alphabet="datxef", boot="datxef") if ("e" in h or "f" in h)]
+    # plus long histories over every two-word alphabet (repeated periods, long alternations)
+    seen_h = set(hs)
+    hs = hs + [h for h in R.long_histories(8 if tier == "quick" else 11) if h not in seen_h]
     items = []
     L = layouts(tier)
     for lay in L:
@@ -171,7 +174,7 @@ def main(tier, seed):
     for d in core.parallel("mc.props.c06", "work", items, seed=seed):
         res.merge(d)
     res.states = len(L) * 4 * 5
-    res.bounds.update(history_depth=depth, layouts=len(L), histories_per_layout=len(hs))
+    res.bounds.update(two_word_history_depth=8 if tier == "quick" else 11, history_depth=depth, layouts=len(L), histories_per_layout=len(hs))
     rule = (
         "every driver-station history up to the stated depth (boot word + one word per iteration, including direct switches between "
         "enabled modes, then endCompetition) for every layout, run through the real startCompetition(); lifecycle monitors on the callback log: "
